@@ -93,6 +93,10 @@ def corrupt_record(rng, recs, idx, kind):
         elif kind == "non_ascii_seq":
             p = rng.randrange(len(s))
             out.append(f"@{n}\n{s[:p]}\xe9{s[p+1:]}\n+\n{q}\n")
+        elif kind == "qual_ctrl":
+            # same length, still ASCII, but not a quality character (printable range is '!'..'~')
+            p = rng.randrange(len(q)) if q else 0
+            out.append(f"@{n}\n{s}\n+\n{q[:p]}{rng.choice([chr(9), ' ', chr(127), chr(1)])}{q[p+1:]}\n")
         elif kind == "missing_line":
             out.append(f"@{n}\n{s}\n+\n")
         else:
@@ -113,6 +117,7 @@ class Fault:
         self.fmt = fmt
         self.detail = detail
         self.out_ext = out_ext        # compression suffix of the output files
+        self.only_defect = None       # set when the file has exactly one, named, kind of defect
 
 
 def wf_prefix_fastq(text):
@@ -184,6 +189,12 @@ def make_faults(ctx, rng, thorough):
             if wf:
                 continue
             yield Fault(f"corrupt-{kind}@rec{idx}", {"in1.fq": text.encode("latin-1")}, None, True, {"in1.fq": pref})
+        if recs1[idx][1]:
+            text = corrupt_record(rng, recs1, idx, "qual_ctrl")
+            f = Fault(f"corrupt-qual_ctrl@rec{idx}", {"in1.fq": text.encode("latin-1")}, None, True, None,
+                      detail="one quality character replaced by a control character, blank or DEL")
+            f.only_defect = "quality-char-out-of-range"
+            yield f
         # paired: mismatching mate name, missing mate
         bad2 = list(recs2)
         bad2[idx] = ("other" + bad2[idx][0], bad2[idx][1], bad2[idx][2])
@@ -347,7 +358,7 @@ def run_fault(ctx, d, fault, cores, bufsize, perturb, cache, state):
     ctx.count("fault_class:" + fault.label.split("@")[0])
     ctx.count(f"cores:{cores}")
     viol = lambda kind, text: ctx.violation(kind, f"fault {fault.label} ({fault.detail}), cores={cores}, buffer-size={bufsize}, perturbation={perturb}: {text}; argv={argv}",
-                                            case, facts=dict(fault=fault.label.split("@")[0], cores=cores), klass=kind + fault.label.split("@")[0])
+                                            case, facts=dict(fault=fault.label.split("@")[0], cores=cores, only_defect=fault.only_defect), klass=kind + fault.label.split("@")[0])
     if run.res.timed_out:
         state["timeouts"] += 1
         if run.res.deadlock:
